@@ -187,6 +187,9 @@ theorem crt_unique (p q v w : Nat) (h : Nat.Coprime p q) (hv : v < p * q) (hw : 
     (hp : v % p = w % p) (hq : v % q = w % q) : v = w :=
   Nat.ModEq.eq_of_lt_of_lt ((Nat.modEq_and_modEq_iff_modEq_mul h).mp ⟨hp, hq⟩) hv hw
 
+example (w : Nat) (hw : w < 35) (h5 : w % 5 = 2) (h7 : w % 7 = 3) : w = 17 :=
+  crt_unique 5 7 w 17 (by decide) hw (by decide) h5 h7
+
 /-- **Garner's formula as implemented by `crt.Params.Recombine` (`crt2`)**: for coprime `p > 1`, `q` and a
 reduced `b < q` it returns the unique `v < p·q` with `v ≡ a (mod p)`, `v ≡ b (mod q)` -/
 theorem crt_recombine (a b p q : Nat) (hp : 1 < p) (h : Nat.Coprime p q) (hb : b < q) :
@@ -258,6 +261,11 @@ theorem isQR_iff_legendre (a p : Nat) [Fact p.Prime] (h2 : p ≠ 2) : isQR a p =
   rw [BronVerif.Lemmas.BigNumSqrt.isQR_iff_isSquare a h2, Ne, legendreSym.eq_neg_one_iff, not_not, Int.cast_natCast]
 
 example : isQR 2 7 = true ∧ isQR 3 7 = false ∧ isQR 14 7 = true := by decide
+example : True := by
+  have : Fact (Nat.Prime 7) := ⟨by norm_num⟩
+  have h : isQR 2 7 = true ↔ legendreSym 7 (2 : ℕ) ≠ -1 := isQR_iff_legendre 2 7 (by decide)
+  have _h2 : legendreSym 7 (2 : ℕ) ≠ -1 := h.mp (by decide)
+  trivial
 example : ∃ r, r * r % 7 = 2 % 7 := (isQR_iff 2 7 (by norm_num) (by decide)).mp (by decide)
 
 /-- **completeness of the modular square root modulo an odd prime** (the `p ≡ 3 (mod 4)` exponentiation and
@@ -310,6 +318,9 @@ theorem bytes_roundtrip (n len : Nat) :
 theorem bytes_canonical (l : List Nat) (h : ∀ b ∈ l, b < 256) :
     natToBytes (bytesToNat l) l.length = l ∧ bytesToNat l < 256 ^ l.length :=
   ⟨BronVerif.Lemmas.BigNumBytes.natToBytes_bytesToNat l h, BronVerif.Lemmas.BigNumBytes.bytesToNat_lt l h⟩
+
+example : natToBytes (bytesToNat [0, 0x12, 0x34]) 3 = [0, 0x12, 0x34] :=
+  (bytes_canonical [0, 0x12, 0x34] (by decide)).1
 
 /-- concatenation: the left part is weighted by `256^(length of the right part)` (leading zero bytes do not
 change the value, trailing ones multiply by 256) -/
